@@ -249,6 +249,36 @@ fn codec_cases() -> Vec<Case> {
             }),
         });
     }
+    // a refused frame leaves no trace in the output buffer: what is encoded after it still decodes as a clean frame stream
+    for n in [LIMIT + 1, LIMIT - 8, LIMIT - 20, 2 * LIMIT] {
+        out.push(Case {
+            name: format!("a Message of {n} bytes (refused if over the limit), then a small frame, encoded into one buffer"),
+            props: "C05 C11",
+            run: Box::new(move || {
+                let mut dst = BytesMut::new();
+                let first = msg(n, false);
+                let small = msg(5, true);
+                let accepted = MessageCodec.encode(first.clone(), &mut dst).is_ok();
+                if !accepted && !dst.is_empty() {
+                    return Err(format!("the encoder refused the frame but left {} bytes in the output buffer", dst.len()));
+                }
+                MessageCodec.encode(small.clone(), &mut dst).map_err(|e| format!("small frame refused: {e:?}"))?;
+                let mut got = Vec::new();
+                loop {
+                    match MessageCodec.decode(&mut dst) {
+                        Ok(Some(f)) => got.push(f),
+                        Ok(None) => break,
+                        Err(e) => return Err(format!("the stream written after a refused frame does not decode: {e:?}")),
+                    }
+                }
+                let want: Vec<Frame> = if accepted { vec![first.clone(), small.clone()] } else { vec![small.clone()] };
+                if got != want || !dst.is_empty() {
+                    return Err(format!("decoded {} frame(s) with {} bytes left over, expected {}", got.len(), dst.len(), want.len()));
+                }
+                Ok(())
+            }),
+        });
+    }
     // the decoder refuses an over-limit prefix as soon as it has the header, without buffering
     for over in [LIMIT as u64 + 1, 1 << 32, u64::MAX] {
         out.push(Case {
